@@ -42,15 +42,35 @@ FAMILIES = {
 LOGU = {"dBm", "dBW", "dBmW", "dBV", "dBuV", "dB", "Np"}
 
 
-def snap(q):
-    """Public observables of a quantity, copied."""
+def snap(q, deep=False):
+    """Public observables of a quantity, copied.  With deep=True also the units of q*1:
+    units() is a text computed when the unit object was built, the product recomputes it
+    from the exponents, so damage to shared exponent objects shows up here."""
     v = q.value()
     if isinstance(v, np.ndarray):
         v = v.copy()
     e = q.abse()
     if isinstance(e, np.ndarray):
         e = e.copy()
+    if deep:
+        try:
+            with np.errstate(all="ignore"):
+                p = (q * 1).units()
+        except Exception as ex:
+            p = "raises " + type(ex).__name__
+        return (v, q.units(), e, p)
     return (v, q.units(), e)
+
+
+def safe_repr(x):
+    """repr() of a library object may itself fail (e.g. formatting 0 +- e)."""
+    try:
+        return repr(x)
+    except Exception as e:
+        try:
+            return f"<{type(x).__name__} value={x.value()!r} units={x.units()!r}>"
+        except Exception:
+            return f"<{type(x).__name__}: repr raises {type(e).__name__}>"
 
 
 def same_num(a, b):
@@ -81,11 +101,11 @@ def same_num(a, b):
 
 
 def same_snap(a, b):
-    return same_num(a[0], b[0]) and a[1] == b[1] and same_num(a[2], b[2])
+    return same_num(a[0], b[0]) and a[1] == b[1] and same_num(a[2], b[2]) and a[3:] == b[3:]
 
 
 def show(s):
-    v, u, e = s
+    v, u, e = s[:3]
     return [np.array2string(v, precision=17) if isinstance(v, np.ndarray) else repr(v), u,
             np.array2string(e, precision=17) if isinstance(e, np.ndarray) else repr(e)]
 
@@ -497,7 +517,7 @@ class QuantityMachine(Machine):
             if op is None:
                 return "skip", None
             kind = op["op"]
-        before = [snap(e["q"]) for e in self.pool]
+        before = [snap(e["q"], deep=True) for e in self.pool]
         target = None          # index whose change is allowed (explicit in-place method)
         result = None
         outcome = "ok"
@@ -591,14 +611,15 @@ class QuantityMachine(Machine):
         for i, e in enumerate(self.pool):
             if i == target:
                 continue
-            after = snap(e["q"])
+            after = snap(e["q"], deep=True)
             if not same_snap(before[i], after):
                 roles = self._roles(op, i)
                 relation = self._relation_c07(op, i)
                 raise Violation(
                     "operand_changed" if roles != "bystander" else "bystander_changed",
                     {"operation": what, "member": i, "role": roles, "outcome": outcome,
-                     "before": show(before[i]), "after": show(after)},
+                     "before": show(before[i]) + list(before[i][3:]),
+                     "after": show(after) + list(after[3:])},
                     signature=f"C07/changed/{what}/role={roles}/{relation}")
         if self.inplace_seen and len(self.pool) >= 2:
             self.nontrivial = True
@@ -716,7 +737,7 @@ class QuantityMachine(Machine):
                 if raised is None:
                     raise Violation("conversion_between_dimensions_accepted",
                                     {"from": led["text"], "to": text, "how": op["how"],
-                                     "result": repr(got)},
+                                     "result": safe_repr(got)},
                                     signature=f"C04/refusal_missing/{op['how']}")
                 after = snap(q)
                 if not (same_snap(before, after) and type(before[0]) is type(after[0])):
